@@ -70,6 +70,10 @@ PreOf(f) == CASE f.edge = "wpr"    -> IF f.creates THEN <<F("WPR"), F("SH"), F("
               [] f.edge = "wprs"   -> IF f.creates THEN <<F("WPRS"), F("SHS")>> ELSE <<F("WPRS")>>
               [] f.edge = "await_" -> <<F("AW"), F("SEND")>>
               [] f.edge = "await_o" -> <<F("AW"), F("SEND"), F("ADAPT")>>
+              \* `with greenback.async_context(mgr):` in a sync frame -- the callee runs inside mgr.__aenter__ (actx_en) or
+              \* mgr.__aexit__ (actx_ex): greenback's adapter method, the await_ bridge, then the manager's own method
+              [] f.edge = "actx_en" -> <<F("ACE"), F("AW"), F("SEND"), F("MEN")>>
+              [] f.edge = "actx_ex" -> <<F("ACX"), F("AW"), F("SEND"), F("MEX")>>
               [] OTHER             -> <<>>
 FlatRaw(s, e, park) ==
   (IF e THEN <<F("GS"), F("SH"), F("TR"), F("SEND")>> ELSE <<>>)
@@ -110,7 +114,7 @@ WalkLen(P, park) == IF \A p \in 2..Len(P) : Passable(P, park, p) THEN Len(P)
 \* "any": the property does not say (portal entry points GS / WPR / WPRS and the adapt_awaitable coroutine are reported
 \* visible by the current code; hiding them would not break C15, so the replay does not compare their flag)
 Hidden(fn) == IF fn \in {"SH", "TR", "SEND", "AW", "TRAP"} \/ (fn = "SHS" /\ FixedF17) THEN "yes"
-              ELSE IF fn \in {"GS", "WPR", "WPRS", "ADAPT"} THEN "any" ELSE "no"
+              ELSE IF fn \in {"GS", "WPR", "WPRS", "ADAPT", "ACE", "ACX"} THEN "any" ELSE "no"
 \* the contexts a user frame holds: the with-block around the call of its callee
 CtxOf(s, u) == IF u = 0 \/ u >= Len(s) THEN "none" ELSE s[u + 1].cm
 Walk(s, e, park) ==
@@ -129,7 +133,8 @@ Init == stk = <<Root>> /\ ens = FALSE /\ acts = <<>> /\ obs = <<Observation(<<Ro
 
 Edges(s, e) == IF Top(s).kind = "a"
                THEN {<<"a", "await">>, <<"a", "wpr">>, <<"s", "call">>, <<"s", "wprs">>}
-               ELSE {<<"s", "call">>} \cup (IF PortalActive(s, e) THEN {<<"a", "await_">>, <<"a", "await_o">>} ELSE {})
+               ELSE {<<"s", "call">>} \cup (IF PortalActive(s, e)
+                                            THEN {<<"a", "await_">>, <<"a", "await_o">>, <<"a", "actx_en">>, <<"a", "actx_ex">>} ELSE {})
 \* with-blocks: an async frame uses `async with M()`, a sync frame `with M()` or, under a portal,
 \* `with greenback.async_context(AM())` (whose Context must show the wrapped async manager)
 Cms(s, e) == IF ~WithCms THEN {"none"}
@@ -140,7 +145,10 @@ Tick(a, s2, e2) == /\ steps < MaxSteps /\ steps' = steps + 1
                    /\ acts' = Append(acts, a) /\ obs' = Append(obs, Observation(s2, e2))
                    /\ stk' = s2 /\ ens' = e2
 Call(ke, cm) ==
-  /\ Len(stk) < MaxDepth /\ ke \in Edges(stk, ens) /\ cm \in Cms(stk, ens)
+  /\ Len(stk) < MaxDepth /\ ke \in Edges(stk, ens)
+  \* the with statement of an actx edge IS the call: while its manager is being entered the caller holds no context for
+  \* it yet; while it is being exited the caller's context for it is exiting ("gbx")
+  /\ cm \in (IF ke[2] = "actx_en" THEN {"none"} ELSE IF ke[2] = "actx_ex" THEN {"gbx"} ELSE Cms(stk, ens))
   /\ LET f == [kind |-> ke[1], edge |-> ke[2], cm |-> cm,
                creates |-> ke[2] \in {"wpr", "wprs"} /\ ~PortalActive(stk, ens)]
      IN Tick([a |-> "call", kind |-> ke[1], edge |-> ke[2], cm |-> cm], Append(stk, f), ens)
@@ -149,7 +157,8 @@ Return == /\ Len(stk) > 1
 \* await greenback.ensure_portal() by the innermost frame (a no-op for the structure when a portal is active)
 Ensure == /\ Top(stk).kind = "a"
           /\ Tick([a |-> "ensure", kind |-> "-", edge |-> "-", cm |-> "-"], stk, ens \/ ~PortalActive(stk, ens))
-Next == (\E ke \in {"a", "s"} \X {"await", "wpr", "call", "wprs", "await_", "await_o"}, cm \in {"none", "async", "sync", "gb"} : Call(ke, cm))
+Next == (\E ke \in {"a", "s"} \X {"await", "wpr", "call", "wprs", "await_", "await_o", "actx_en", "actx_ex"},
+            cm \in {"none", "async", "sync", "gb", "gbx"} : Call(ke, cm))
         \/ Return \/ Ensure
 Spec == Init /\ [][Next]_vars
 View == <<stk, ens>>
